@@ -246,10 +246,18 @@ def _num(x, y):
     return sx
 
 
+def _list_as_arr(x):
+    """a python list of floats/ints meeting an array in arithmetic is converted by numpy: same elements, same order"""
+    if isinstance(x, SymList) and x.elem_wrap is None and not isinstance(x.seq.cols, tuple) and x.seq.cols.sort().range() in (Real, Int):
+        return Arr((x.seq.length,), x.seq.cols, "float" if x.seq.cols.sort().range() == Real else "int")
+    return x
+
+
 @hook("binop")
 def _binop(i, op, a, b, node):
     if not isinstance(a, Arr) and not isinstance(b, Arr):
         return NotImplemented
+    a, b = _list_as_arr(a), _list_as_arr(b)
     ea = a.elem_sort if isinstance(a, Arr) else (a.sort() if is_z3(a) else (Bool if isinstance(a, bool) else Int if isinstance(a, int) else Real))
     eb = b.elem_sort if isinstance(b, Arr) else (b.sort() if is_z3(b) else (Bool if isinstance(b, bool) else Int if isinstance(b, int) else Real))
     if isinstance(op, (ast.BitAnd, ast.BitOr, ast.BitXor)):
@@ -271,8 +279,15 @@ def _binop(i, op, a, b, node):
         return _lift2(i, a, b, lambda x, y: cv(x) / cv(y), res, node, opkey="Div")
     if isinstance(op, ast.Pow) and isinstance(b, int) and b == 2:
         if res == Real:
-            from .np_real import sq
-            return _lift2(i, a, b, lambda x, y: sq(cv(x)), res, node, opkey="Sq")
+            from .np_real import sq, install_sums, sq_axioms
+            install_sums(i)
+            if not i.ctx.ghost.get("_sq_axioms"):
+                i.ctx.ghost["_sq_axioms"] = True
+                for ax_ in sq_axioms():
+                    i.ctx.assume(ax_)
+            r_ = _lift2(i, a, b, lambda x, y: sq(cv(x)), res, node, opkey="Sq")
+            i.ctx.ghost["last_sq_array"] = r_  # ghost handle for contracts (sum of squares is non-negative)
+            return r_
         return _lift2(i, a, b, lambda x, y: cv(x) * cv(x), res, node)
     raise Unsupported("array operator %s" % type(op).__name__, node)
 
@@ -692,3 +707,11 @@ def _isinstance_ndarray(i, v, cls, node):
         if isinstance(v, (int, float, bool, str)) or is_z3(v):
             return False  # scalars (python numbers / symbolic scalars) are not arrays
     return NotImplemented
+
+
+@model("numpy.square", "np.square(a) = a ** 2 pointwise")
+def _square(i, args, kw, node, fr):
+    (a,) = args
+    if isinstance(a, Arr):
+        return _binop(i, ast.Pow(), a, 2, node)
+    raise Unsupported("np.square of a scalar", node)
